@@ -88,3 +88,11 @@ Theorem C05_tables_stable : forall leader : list N, reconcile leader leader = le
 Proof. exact reconcile_stable. Qed.
 Print Assumptions C05_tables_converge.
 Print Assumptions C05_tables_stable.
+
+(* every remaining property theorem of this file *)
+Print Assumptions C05_invariant_step.
+Print Assumptions C05_leader_prefix_stable.
+Print Assumptions C05_progress.
+Print Assumptions C05_recovery_reaches_leader.
+Print Assumptions C05_tables_converge_to_none.
+Print Assumptions C05_tables_minimal_change.
